@@ -38,6 +38,20 @@ RESP_SETUP = ["resp-create 1 kind=freecb size=5", "resp-create 2 kind=cb size=60
 SITES = ["ipnode", "conn", "addr", "pool"]
 
 
+def tpc_write_wait_bounded():
+    """regenerated flag: does a thread-per-connection thread that waits in select() for its socket to become writable
+    use a bounded wait?  Without it MHD_stop_daemon() never returns when the connection is an AF_UNIX socket whose
+    client does not read (shutdown() does not make a full AF_UNIX socket "writable" for select(): finding
+    `tpc select stop hang`, build/fixes/C09_tpc_select_stop_hang.diff) - the scripts then keep away from it"""
+    try:
+        src = open(os.path.join(vlib.REPO, "src/microhttpd/daemon.c")).read()
+    except OSError:
+        return False
+    i = src.find("thread_main_handle_connection (void *data)")
+    body = src[i:i + 12000]
+    return bool(re.search(r"MHD_EVENT_LOOP_INFO_WRITE == con->event_loop_info\)\s*\{[^}]*tvp = &tv;", body))
+
+
 class Mirror:
     """generator-side guess of the script state (only used to pick sensible operations; the
     model driver removes whatever is not legal before a script is run)"""
@@ -140,7 +154,8 @@ def gen_history(rng, name, modes, nops=None, listen=0):
             if rid == 3:
                 kind = "upgrade"
             # (a client that stops reading blocks a big reply on the AF_UNIX pair only: loopback TCP buffers swallow it)
-            if rid == 2 and rng.random() < 0.7 and not cfg.get("listen"):
+            # (and not in thread-per-connection mode as long as MHD_stop_daemon can hang there, see tpc_write_wait_bounded)
+            if rid == 2 and rng.random() < 0.7 and not cfg.get("listen") and (cfg["mode"] != "tpc" or tpc_write_wait_bounded()):
                 L.append("hold %d" % c)
                 m.held.append(c)
             # interim "102 Processing" replies before the final one (every handler call answers with one)
@@ -380,6 +395,13 @@ def gen_threads(rng, n):
                 L += ["arrive %d %d 1" % (nid, 10 + j), SETTLE]; nid += 1
             L += ["mark fresh-batch", "query", "stop"] + ["resp-drop %d" % r for r in (1, 2, 3, 4)]
             out.append(L)
+    if tpc_write_wait_bounded():
+        # stop while a connection thread waits for a client that does not read (hung before the fix)
+        for drop in (0, 1):
+            cfg = {"mode": "tpc", "limit": 2, "perip": 0, "suspend": 0, "upgrade": 0, "nts": 0}
+            out.append(["case tpchs%d" % drop, cfg_line(cfg), "start"] + RESP_SETUP
+                       + ["arrive 0 1 1", "arrive 1 2 1", SETTLE, "hold 0", "req 0 reply 2 4", "req 1 reply 1", SETTLE]
+                       + (["resp-drop 2"] if drop else []) + ["stop"] + ["resp-drop %d" % r for r in (1, 2, 3, 4)])
     # MHD_start_daemon itself: the k-th thread cannot be created -> NULL, nothing left behind (LSan, thread count)
     for mode, pool in (("select-thr", 0), ("select-thr", 3), ("poll-thr", 4), ("epoll-thr", 2), ("tpc", 0)):
         for k in range(1, (pool or 1) + 1):
@@ -902,6 +924,7 @@ class Spec:
                "pool_histories_oracle_only": len(gen_pool_family()), "exhaustive_histories": len(exh), "allocfail_histories": len(af), "random_histories": len(rnd), "corpus": ncorp,
                "refsite_histories": len(sites), "listen_histories": len(lsn), "thread_histories_quick": len(thq),
                "script_features_after_legality_filter": feat,
+               "tpc_write_wait_bounded": tpc_write_wait_bounded(),
                "outcomes": stats, "exhaustive": False,
                "correspondence": {"MHD_add_connection/internal_add_connection/new_connection_prepare_/new_connection_process_/"
                                   "new_connections_list_process_/MHD_ip_limit_add/MHD_ip_limit_del/MHD_cleanup_connections/"
